@@ -863,13 +863,13 @@ void DVectorTrasposedDVectorDotProduct(dvector *v1, dvector *v2, matrix *m)
 {
   size_t i;
   size_t j;
-  if(m->row != v1->size && m->col != v2->size)
+  if(m->row != v1->size || m->col != v2->size)
     ResizeMatrix(m, v1->size, v2->size);
 
   for(i = 0; i < v1->size; i++){
     for(j = 0; j < v2->size; j++){
       if(FLOAT_EQ(v1->data[i], MISSING, 1e-1) ||
-         FLOAT_EQ(v2->data[i], MISSING, 1e-1)){
+         FLOAT_EQ(v2->data[j], MISSING, 1e-1)){
         m->data[i][j] = MISSING;
       }
       else{
